@@ -473,8 +473,14 @@ pub fn run(ctx: &mut Ctx) {
             }
             // tails
             if tail["k"] == "vec" {
-                let maxn = tail["max"].as_u64().unwrap_or(8).min(if compressed { 30 } else { 8 });
-                for n in [0u64, 1, 2, 3, maxn] {
+                // up to the specification's maximum (or what the size mode's frame limit leaves room for)
+                let limit: u64 = if compressed { 1020 } else { 255 };
+                let per = tail["elt_size"].as_u64().unwrap_or(4).max(1);
+                let fit = (limit - tail["off"].as_u64().unwrap_or(4)) / per;
+                let maxn = tail["max"].as_u64().unwrap_or(16).min(fit);
+                let mut counts = vec![0u64, 1, 2, 3, maxn / 2, (maxn / 2) + 1, maxn.saturating_sub(1), maxn];
+                counts.sort(); counts.dedup();
+                for n in counts {
                     let elems: Vec<Vec<FV>> = (0..n).map(|e| elem_baseline(&kind, tail, e)).collect();
                     let c = image(k, compressed, &base, &elems, &[]);
                     if c.frame.len() > if compressed { 1020 } else { 255 } { continue; }
